@@ -93,7 +93,7 @@ type EndCfg struct {
 
 // Chunk is one write call on an open message writer.
 type Chunk struct {
-	How string `json:"how"` // w Write | s io.WriteString | rf ReadFrom (io.Copy) | z zero-length Write
+	How string `json:"how"` // w Write | s io.WriteString | rf ReadFrom (io.Copy) | z zero-length Write | e+ e- EnableWriteCompression while the message is open | l SetCompressionLevel(N) while the message is open
 	N   int    `json:"n"`
 	RfChunk int `json:"rf_chunk,omitempty"` // reader chunk size for ReadFrom
 	RfEOF   bool `json:"rf_eof,omitempty"`  // the source returns its last bytes together with io.EOF
